@@ -315,6 +315,23 @@ def _run_own(ck):
             n3 += 1
             ck.ob('R-SERDE', '%s.%s/skip-needs-default' % (st, fld), 'default' in keys, 'quizx/src/json.rs (%s.%s)' % (st, fld), 'field is skipped when default but has no #[serde(default)]: decoding a document the writer produced would fail')
     ck.floor('R-SERDE', n3, 12)
+    # custom field deserialisers are generic over the Deserializer: they must ask for OWNED data. Deserialising into a borrowed `&str` / `&[u8]` only works
+    # when the input can lend it (serde_json::from_str) and fails with `expected a borrowed string` for a reader (read_graph) or an escaped string
+    nb = 0
+    for key, fn_ in sorted(facts['fns'].items()):
+        if not fn_['file'].endswith(('quizx/src/json.rs', 'quizx/src/json/graph.rs', 'quizx/src/json/phase.rs', 'quizx/src/json/scalar.rs')) or fn_.get('macro'):
+            continue
+        if not any('Deserializer' in (fn_.get('output') or '') or 'Deserializer' in (i or '') for i in [fn_.get('output')] + list(fn_.get('inputs') or [])):
+            continue
+        for i, c in enumerate(c2 for c2 in hir.calls(fn_['hir']) if (hir.callee(c2) or '').endswith('Deserialize::deserialize')):
+            nb += 1
+            ty = c.get('ty') or ''
+            inner = ty[len('std::result::Result<'):].split(',')[0] if ty.startswith('std::result::Result<') else ty
+            borrowed = inner.strip().startswith('&')
+            ck.ob('R-SERDE-owned', '%s/deserialize-%d' % (key, i), not borrowed, ck.site(key, c),
+                  'a field deserialiser asks for borrowed data (`%s`): serde_json can lend a &str only when parsing an in-memory string without escapes; reading the same document with from_reader (read_graph) '
+                  'fails with "invalid type: string, expected a borrowed string" — every file with a Hadamard edge (`"is_edge":"true"`) is unreadable' % inner.strip(), sample={'asks_for': inner.strip()})
+    ck.floor('R-SERDE-owned', nb, 2)
     # ---- D4
     for tr, meth, callee in (('serde::Serialize', 'serialize', W), ('serde::Deserialize', 'deserialize', R)):
         key = None
